@@ -562,6 +562,14 @@ def oracle_c17(rows):
                         fails.append(_fail(r, idx, "expired %s changed the wallet" % k))
                 elif s["rc"] == [1, 7]:
                     fails.append(_fail(r, idx, "%s refused as expired with cutoff %d at observed height %d" % (k, ttl, confh)))
+            # the issuer of an invoice adopts the cutoff the payer attached (it enforces it at finalize; its
+            # entry has to expire like the payer's)
+            if k == "finalize_invoice" and s["rc"] == [0] and int(s["op"]["ttl"]) != 0:
+                for t in snap["txs"]:
+                    if t["slate"] == s["op"]["slate"] and t["type"] == 1 and t["ttl"] is None:
+                        fails.append(_fail(r, idx, "invoice finalized on a reply with cutoff %s: the issuer's entry %s carries "
+                                                   "no cutoff and never expires [invoice-issuer-no-cutoff]"
+                                           % (s["op"]["ttl"], (t["parent"], t["id"]))))
             # (also when the call failed with "not cancellable": the refresh had reached its expiry step)
             if prev is not None and k == "update_state" and s["rc"] in ([0], [1, 10]) and not s["op"].get("outage"):
                 tip = s["op"]["tip"]
